@@ -816,10 +816,13 @@ func NewMap(keyType, valueType Type, in []Value) Value {
 
 func newStringMap(keyType, valueType Type, in []Value) Value {
 	m := &stringMap{valueType: valueType, data: map[string]Value{}}
-	m.keys = make([]string, len(in)/2)
+	m.keys = make([]string, 0, len(in)/2)
 	for i := 0; i < len(in); i += 2 {
 		k, v := string(in[i].value.(stringT)), in[i+1]
-		m.keys[i/2] = k
+		if _, ok := m.data[k]; !ok {
+			// a key listed twice (non-constant keys) is one entry: the last value wins
+			m.keys = append(m.keys, k)
+		}
 		m.data[k] = v.assign(valueType)
 	}
 	return Value{t: mapType(keyType, valueType), value: m}
@@ -903,10 +906,13 @@ type numericMap struct {
 
 func newNumericMap(keyType, valueType Type, in []Value) Value {
 	m := &numericMap{keyType: keyType, valueType: valueType, data: map[float64]Value{}}
-	m.keys = make([]float64, len(in)/2)
+	m.keys = make([]float64, 0, len(in)/2)
 	for i := 0; i < len(in); i += 2 {
 		k, v := in[i].num, in[i+1]
-		m.keys[i/2] = k
+		if _, ok := m.data[k]; !ok {
+			// a key listed twice (non-constant keys) is one entry: the last value wins
+			m.keys = append(m.keys, k)
+		}
 		m.data[k] = v.assign(valueType)
 	}
 	return Value{t: mapType(keyType, valueType), value: m}
